@@ -100,6 +100,10 @@ def unit_rac(eng, tier="quick"):
               # a diagnostic on the very last line of a file that has no final newline, and at the end-of-file position
               ("warn-last-line-no-newline", "make_raw\nmov #1, r0\n.word", 0), ("err-last-line-no-newline", "make_raw\n.word 200000", 1), ("warn-at-eof", "make_raw\nnop\n.word\n", 0),
               # an error in a definition that no statement uses (it is evaluated only because every symbol is resolved at the end); with and without --lst
+              # source lines that the graphical format colours: several ';' on the reported line, quotes inside comments
+              ("warn-two-semicolons", "\t.byte\t\t; pad to even; see start\nmake_raw\n", 0), ("err-quote-in-comment", ".word 200000 ; it's \"big\"; really\nmake_raw\n", 1),
+              # an output path the operating system cannot express (NUL): an io-error report, not the internal-error path
+              ("err-nul-in-output-path", "nop\nmake_raw \"a\\x00b\"\n", 1),
               ("err-unused-undefined", "limit = top - 2\nnop\nmake_raw\n", 1), ("err-unused-divzero-later", "x = y / z\nz = 0\ny = 1\nnop\nmake_raw\n", 1),
               ("err-unused-label-expr", "nop\nq = e - zz\ne:\nmake_raw\n", 1)]
     wsel = [[], ["-Wall"], ["-Wno-implicit-operand"], ["-Wmeta-typo", "-Wno-not-implemented"]]
@@ -161,7 +165,9 @@ def unit_bounded_handlers(eng, tier="quick"):
     """bounded stand-in for the report renderers (string formatting code outside the subset): BareHandler and GraphicalHandler never raise,
     whatever spans they are given - every start <= end pair of positions in small texts (with and without a final newline, tabs, empty,
     non-ASCII, several lines), one- and two-part reports, parts in two files, every severity"""
-    texts = ["", "a", "a\n", "a\nb", "ab\n\n", "\tx y\n\n z", "ab\ncd\nef\ngh\nij\nkl\nmn\nop", "\u00e9\u4e16\n\tq", "\n\n\n"]
+    texts = ["", "a", "a\n", "a\nb", "ab\n\n", "\tx y\n\n z", "ab\ncd\nef\ngh\nij\nkl\nmn\nop", "\u00e9\u4e16\n\tq", "\n\n\n",
+             # what the colouring of the graphical format looks at: comments (one, several, empty), strings, quotes, brackets, labels, numbers
+             "x ;c", "a;b;c\n;", "\t.byte\t; pad; see 'x\n", "\";\" ;\"", "l: 1$: <'a> \"\\\"\" /;/ ^R;", ";;;", "'"]
     if tier != "quick":
         texts += ["a\r\nb", "x" * 200 + "\ny", "\n".join("l%d" % i for i in range(40))]
     code = r'''
